@@ -35,6 +35,8 @@ use std::collections::{BTreeMap, BTreeSet};
 use std::sync::atomic::{AtomicU64, Ordering};
 
 const CALLERS: [&str; 7] = ["admin", "usr1", "usr2", "loggedout", "expired", "garbage", "none"];
+/// spellings of one token the server accepts (see `Base::auth_header`); a caller is `<kind>[@<form>]`
+const FORMS: [&str; 4] = ["quoted", "lower", "quoted2", "leftquote"];
 
 #[derive(Clone, Debug, PartialEq)]
 enum Op {
@@ -57,6 +59,7 @@ enum Op {
     UserList(&'static str, &'static str),
     DbList,
     Logout,
+    ChangePassword,
     AdminUserAdd(&'static str),
     AdminUserDelete(&'static str),
     AdminUserLogout(&'static str),
@@ -107,6 +110,7 @@ impl Op {
             Op::UserList(o, d) => format!("db-user-list:{o}/{d}"),
             Op::DbList => "db-list".to_string(),
             Op::Logout => "logout".to_string(),
+            Op::ChangePassword => "change-password".to_string(),
             Op::AdminUserAdd(u) => format!("admin-user-add:{u}"),
             Op::AdminUserDelete(u) => format!("admin-user-delete:{u}"),
             Op::AdminUserLogout(u) => format!("admin-user-logout:{u}"),
@@ -135,6 +139,8 @@ impl Op {
 
     fn request(&self, caller: &str) -> Req {
         // loggedout / expired: admin's token on admin routes, the owner's elsewhere
+        let (kind, form) = caller.split_once('@').unwrap_or((caller, "plain"));
+        let caller = kind;
         let key = match (caller, self.is_admin_route()) {
             ("loggedout", true) => "admin_loggedout",
             ("loggedout", false) => "usr1_loggedout",
@@ -160,6 +166,7 @@ impl Op {
             Op::UserList(o, d) => ("GET", format!("/db/{o}/{d}/user/list"), None),
             Op::DbList => ("GET", "/db/list".to_string(), None),
             Op::Logout => ("POST", "/user/logout".to_string(), None),
+            Op::ChangePassword => ("PUT", "/user/change_password".to_string(), Some(json!({"password": if caller == "admin" { "admin" } else { PASSWORD }, "new_password": "password456"}))),
             Op::AdminUserAdd(u) => ("POST", format!("/admin/user/{u}/add"), Some(json!({"password": PASSWORD}))),
             Op::AdminUserDelete(u) => ("DELETE", format!("/admin/user/{u}/delete"), None),
             Op::AdminUserLogout(u) => ("POST", format!("/admin/user/{u}/logout"), None),
@@ -172,7 +179,8 @@ impl Op {
             Op::AdminDbRename(o, d, no, nd) => ("POST", format!("/admin/db/{o}/{d}/rename?new_owner={no}&new_db={nd}"), None),
             Op::AdminDbList => ("GET", "/admin/db/list".to_string(), None),
         };
-        Req::new(key, m, &uri, body, &self.label())
+        let key = if form == "plain" { key.to_string() } else { format!("{key}@{form}") };
+        Req::new(&key, m, &uri, body, &self.label())
     }
 }
 
@@ -206,6 +214,7 @@ fn ops() -> Vec<Op> {
         Op::UserAdd("usr2", "db2", "usr1", "admin"),
         Op::Delete("usr2", "db2"),
         Op::Logout,
+        Op::ChangePassword,
         Op::AdminUserList,
         Op::AdminDbList,
         Op::AdminUserAdd("usr3"),
@@ -276,6 +285,11 @@ fn reduced_alphabet() -> Vec<(&'static str, &'static str)> {
         ("expired", "admin-db-delete:usr1/db1"),
         ("garbage", "exec_mut:usr1/db1"),
         ("none", "delete:usr1/db1"),
+        // token presentation forms
+        ("usr1@quoted", "logout"),
+        ("usr2@quoted", "logout"),
+        ("usr2@lower", "exec_mut:usr1/db1"),
+        ("loggedout@quoted", "exec_mut:usr1/db1"),
         // added for the thorough tier's depth 3
         ("usr1", "exec-read:usr1/db1"),
         ("usr1", "backup:usr1/db1"),
@@ -436,7 +450,7 @@ impl Model {
             // mutating queries are never allowed through exec
             Op::ExecWrite(..) => false,
             // any authenticated user
-            Op::DbList | Op::Logout => true,
+            Op::DbList | Op::Logout | Op::ChangePassword => true,
             // server admin
             _ => u == "admin",
         }
@@ -570,6 +584,8 @@ impl Model {
                     }
                 }
             }
+            // the password is not part of the observable world
+            Op::ChangePassword => {}
             Op::Optimize(..) | Op::Audit(..) | Op::ExecRead(..) | Op::UserList(..) | Op::DbList | Op::AdminUserList | Op::AdminDbList => {}
             Op::ExecWrite(..) => return Err("never permitted".to_string()),
         }
@@ -695,8 +711,10 @@ fn run_sequence(lab: &mut Lab, base: &Base, seq: &[Step], stats: Option<&Stats>,
     }
     for step in seq {
         let req = step.op.request(step.caller);
-        let who = model.who(&req.caller);
-        let permitted = model.permitted(&req.caller, &step.op);
+        // the model knows tokens, not their spellings
+        let token_key = req.caller.split('@').next().unwrap_or("").to_string();
+        let who = model.who(&token_key);
+        let permitted = model.permitted(&token_key, &step.op);
         let role = model.role_name(who.as_ref(), &step.op);
         let resp = lab.call(base, &req);
         let after = lab.observe();
@@ -730,7 +748,7 @@ fn run_sequence(lab: &mut Lab, base: &Base, seq: &[Step], stats: Option<&Stats>,
             if let Some(s) = stats {
                 s.permitted_applied.fetch_add(1, Ordering::Relaxed);
             }
-            match model.apply(&req.caller, &step.op) {
+            match model.apply(&token_key, &step.op) {
                 Ok(()) => {
                     let want = model.observe();
                     if want != after {
@@ -773,7 +791,54 @@ fn seq_json(base: &Base, seq: &[Step]) -> Value {
 }
 
 fn caller_static(c: &str) -> &'static str {
-    CALLERS.iter().find(|x| **x == c).copied().unwrap_or_else(|| engine::machinery_failure(&format!("unknown caller {c}")))
+    static ALL: std::sync::OnceLock<Vec<&'static str>> = std::sync::OnceLock::new();
+    let all = ALL.get_or_init(|| {
+        let mut v: Vec<&'static str> = CALLERS.to_vec();
+        for k in CALLERS {
+            for f in FORMS {
+                v.push(Box::leak(format!("{k}@{f}").into_boxed_str()));
+            }
+        }
+        v
+    });
+    all.iter().find(|x| **x == c).copied().unwrap_or_else(|| engine::machinery_failure(&format!("unknown caller {c}")))
+}
+
+/// Token presentation forms x token states x the operations where the spelling matters
+/// (logout, change password, one representative per permission class).
+fn presentation_entries(tier: Tier, all: &[Op]) -> Vec<Step> {
+    let mut v: Vec<(String, &str)> = vec![];
+    match tier {
+        Tier::Quick => {
+            for (c, ops) in [
+                ("usr1@quoted", vec!["logout", "exec_mut:usr1/db1", "delete:usr1/db1", "change-password"]),
+                ("usr2@quoted", vec!["logout", "exec-read:usr1/db1", "backup:usr1/db1"]),
+                ("admin@quoted", vec!["logout", "admin-db-delete:usr1/db1"]),
+                ("loggedout@quoted", vec!["exec_mut:usr1/db1", "admin-db-delete:usr1/db1", "change-password"]),
+                ("expired@quoted", vec!["exec_mut:usr1/db1", "admin-db-delete:usr1/db1", "logout"]),
+                ("usr1@lower", vec!["logout", "exec_mut:usr1/db1"]),
+                ("admin@lower", vec!["admin-db-delete:usr1/db1"]),
+                ("loggedout@lower", vec!["exec_mut:usr1/db1"]),
+                ("expired@lower", vec!["exec_mut:usr1/db1"]),
+                ("usr2@quoted2", vec!["logout"]),
+                ("usr2@leftquote", vec!["logout"]),
+            ] {
+                for o in ops {
+                    v.push((c.to_string(), o));
+                }
+            }
+        }
+        Tier::Thorough => {
+            for f in FORMS {
+                for k in ["usr1", "usr2", "admin", "loggedout", "expired"] {
+                    for o in ["logout", "change-password", "exec-read:usr1/db1", "exec_mut:usr1/db1", "backup:usr1/db1", "delete:usr1/db1", "admin-db-delete:usr1/db1"] {
+                        v.push((format!("{k}@{f}"), o));
+                    }
+                }
+            }
+        }
+    }
+    v.iter().map(|(c, o)| step_of(c, o, all)).collect()
 }
 
 fn step_of(caller: &str, label: &str, all: &[Op]) -> Step {
@@ -821,7 +886,7 @@ pub(crate) fn run(args: &Args) -> i32 {
     }
     // quick: the standard alphabet without read-only listings and a few redundant targets
     // (they stay in the thorough full product)
-    let quick_skip = ["db-user-list", "db-list", "audit", "optimize", "admin-db-list", "admin-user-list", "admin-db-add"];
+    let quick_skip = ["change-password", "db-user-list", "db-list", "audit", "optimize", "admin-db-list", "admin-user-list", "admin-db-add"];
     let quick_skip_labels = ["exec_mut:usr1/db9", "delete:usr2/db2", "db-user-add-admin:usr2/db2:usr1", "add:usr1/db1"];
     let quick_invalid = ["exec_mut:usr1/db1", "delete:usr1/db1", "logout", "admin-db-delete:usr1/db1"];
     let core: Vec<Step> = standard
@@ -830,6 +895,13 @@ pub(crate) fn run(args: &Args) -> i32 {
         .filter(|s| ["admin", "usr1", "usr2"].contains(&s.caller) || quick_invalid.contains(&s.op.label().as_str()))
         .cloned()
         .collect();
+    let mut core = core;
+    // fewer plain invalid-token entries in quick (the presentation entries take their place)
+    core.retain(|s| !(["garbage", "none"].contains(&s.caller) && ["logout", "admin-db-delete:usr1/db1"].contains(&s.op.label().as_str())));
+    // the admin acting as an ordinary user: three representatives in quick (all of them in thorough)
+    core.retain(|s| s.caller != "admin" || s.op.is_admin_route() || ["exec_mut:usr1/db1", "delete:usr1/db1", "logout"].contains(&s.op.label().as_str()));
+    core.extend(presentation_entries(Tier::Quick, &all_ops));
+    full.extend(presentation_entries(Tier::Thorough, &all_ops));
     let reduced: Vec<Step> = reduced_alphabet().iter().map(|(c, l)| step_of(c, l, &all_ops)).collect();
     // (alphabet, depth) per tier
     let plans: Vec<(&str, &Vec<Step>, usize)> = match args.tier {
